@@ -1,6 +1,6 @@
 (* Model for property C13 - html_attrs and Python-passed slot content emit exactly the data given, escaped.
 
-   Anchors in /repo/src/django_components:
+   Anchors in /repo/src/django_components (as of fix commits e6d6b5a, 30be467, c3ea7ff):
      attributes.py      HtmlAttrsNode.render, attributes_to_string, append_attributes
      util/template_tag.py  resolve_params (merge_repeated_kwargs), validate_params (binding to
                            render(self, context, attrs=None, defaults=None, **kwargs))
@@ -48,19 +48,23 @@ Definition text_of (v : aval) : str :=      (* Python str(v) *)
 
 Definition is_strv (v : aval) : bool := match v with VStr _ | VSafe _ => true | _ => false end.
 
-Notation dict := (list (str * aval)) (only parsing).
+(* A dictionary key = (text, is the key object a SafeString).  Python compares and hashes a SafeString like the
+   plain string with the same text, and an assignment to an existing key keeps the key OBJECT that was inserted
+   first - so look-ups go by text and the safe mark of an entry is the mark of the key inserted first. *)
+Notation akey := (str * bool)%type (only parsing).
+Notation dict := (list ((str * bool) * aval)) (only parsing).
 
 Fixpoint dget (k : str) (d : dict) : option aval :=
   match d with
   | [] => None
-  | (k', v) :: r => if str_eqb k k' then Some v else dget k r
+  | (k', v) :: r => if str_eqb k (fst k') then Some v else dget k r
   end.
 
-(* d[k] = v : in place when the key exists, at the end otherwise (insertion-ordered dict) *)
-Fixpoint dset (k : str) (v : aval) (d : dict) : dict :=
+(* d[k] = v : in place (old key object kept) when the key exists, at the end otherwise (insertion-ordered dict) *)
+Fixpoint dset (k : str * bool) (v : aval) (d : dict) : dict :=
   match d with
   | [] => [(k, v)]
-  | (k', v') :: r => if str_eqb k k' then (k', v) :: r else (k', v') :: dset k v r
+  | (k', v') :: r => if str_eqb (fst k) (fst k') then (k', v) :: r else (k', v') :: dset k v r
   end.
 
 Definition dupdate (d upd : dict) : dict := fold_left (fun acc kv => dset (fst kv) (snd kv) acc) upd d.
@@ -74,7 +78,7 @@ Fixpoint append_attributes (items : dict) (res : dict) : option dict :=
   match items with
   | [] => Some res
   | (k, v) :: r =>
-      match dget k res with
+      match dget (fst k) res with
       | None => append_attributes r (dset k v res)
       | Some old => match add_str old v with
                     | Some nv => append_attributes r (dset k nv res)
@@ -83,15 +87,16 @@ Fixpoint append_attributes (items : dict) (res : dict) : option dict :=
       end
   end.
 
-(* conditional_escape of an attribute value *)
+(* conditional_escape of an attribute value / of an attribute name *)
 Definition cesc (v : aval) : str := match v with VSafe s => s | _ => escape (text_of v) end.
+Definition kesc (k : str * bool) : str := if snd k then fst k else escape (fst k).
 
-Definition render_item (kv : str * aval) : option str :=
+Definition render_item (kv : (str * bool) * aval) : option str :=
   let '(k, v) := kv in
   match v with
   | VNone | VFalse => None
-  | VTrue => Some (escape k)
-  | _ => Some (escape k ++ [61; 34] ++ cesc v ++ [34])
+  | VTrue => Some (kesc k)
+  | _ => Some (kesc k ++ [61; 34] ++ cesc v ++ [34])
   end.
 
 Fixpoint filter_some {A} (l : list (option A)) : list A :=
@@ -104,53 +109,62 @@ Fixpoint join_sp (l : list str) : str :=
   | x :: r => x ++ 32 :: join_sp r
   end.
 
-Definition attributes_to_string (d : dict) : str := join_sp (filter_some (map render_item d)).
+(* the text attributes_to_string builds when it refuses nothing *)
+Definition ats_text (d : dict) : str := join_sp (filter_some (map render_item d)).
 
-(* names an HTML attribute can carry unchanged (HTML syntax 13.1.2.3 plus '&' '<' which escape() rewrites) *)
+(* _INVALID_ATTR_NAME_RE: a character class - controls and space (0-32), 127-159, both quotes, > / = & < .
+   Characters a name must not contain (anchored to the pattern of the source in Attrs/Proofs.v) *)
 Definition name_char_ok (c : N) : bool :=
   negb (N.leb c 32 || (N.leb 127 c && N.leb c 159)
         || N.eqb c 34 || N.eqb c 39 || N.eqb c 62 || N.eqb c 47 || N.eqb c 61 || N.eqb c 38 || N.eqb c 60).
+(* not (not str(key) or RE.search(str(key))) *)
 Definition valid_name (k : str) : bool :=
   match k with [] => false | _ => forallb name_char_ok k end.
 Definition rendered (v : aval) : bool := match v with VNone | VFalse => false | _ => true end.
-Definition names_ok (d : dict) : bool := forallb (fun kv => negb (rendered (snd kv)) || valid_name (fst kv)) d.
+(* `isinstance(key, SafeData) or` the name is valid *)
+Definition key_ok (k : str * bool) : bool := snd k || valid_name (fst k).
+Definition names_ok (d : dict) : bool := forallb (fun kv => negb (rendered (snd kv)) || key_ok (fst kv)) d.
 
-(* attributes_to_string WITH the proposed repair (notes/fixes/C13-refuse-invalid-attr-names.patch): a name
-   that cannot be written as an HTML attribute name is refused (ValueError) instead of emitted.  The check
-   uses this variant when the tree under test refuses such names, the plain one otherwise. *)
-Definition attributes_to_string_strict (d : dict) : option str :=
-  if names_ok d then Some (attributes_to_string d) else None.
-
-(* HtmlAttrsNode.render(context, attrs, defaults, **kwargs); None = TypeError *)
-Definition html_attrs_dict (attrs defaults : dict) (kwargs : dict) : option dict :=
-  let final := dupdate (dupdate [] defaults) attrs in
-  append_attributes (final ++ kwargs) [].
-Definition html_attrs (attrs defaults : dict) (kwargs : dict) : option str :=
-  option_map attributes_to_string (html_attrs_dict attrs defaults kwargs).
-
-(* ================================================================================================ *)
-(* 3. the tag level: resolved params -> merge_repeated_kwargs -> aggregate -> split -> bind -> render *)
-(* ================================================================================================ *)
-Inductive tval := TS (v : aval) | TD (d : dict).
-(* keyword = (name, name.isidentifier() and not keyword.iskeyword(name)) ; None = positional *)
-Notation tkey := (option (str * bool)) (only parsing).
-Notation tparam := (option (str * bool) * tval)%type (only parsing).
+(* attributes_to_string: None = ValueError (an attribute that would be emitted has a non-safe name that cannot be
+   written as one HTML attribute name).  The loop raises at the first such entry; nothing is returned then, so
+   the position does not matter. *)
+Definition attributes_to_string (d : dict) : option str :=
+  if names_ok d then Some (ats_text d) else None.
 
 Inductive outcome :=
 | Out (s : str)
 | ErrType              (* TypeError *)
 | ErrTemplateSyntax    (* TemplateSyntaxError *)
 | ErrSyntax            (* SyntaxError: positional after a non-identifier keyword *)
-| ErrValue             (* ValueError: attribute name refused (only with the proposed repair) *)
+| ErrValue             (* ValueError: attribute name refused *)
 | OutOfScope.          (* shapes the model does not cover (str() of a dict, non-dict attrs, ...) *)
 
-Definition key_is (k : str) (p : option (str * bool) * tval) : bool :=
-  match fst p with Some (k', _) => str_eqb k k' | None => false end.
+(* HtmlAttrsNode.render(context, attrs, defaults, **kwargs); None = TypeError from append_attributes *)
+Definition html_attrs_dict (attrs defaults : dict) (kwargs : dict) : option dict :=
+  let final := dupdate (dupdate [] defaults) attrs in
+  append_attributes (final ++ kwargs) [].
+Definition html_attrs (attrs defaults : dict) (kwargs : dict) : outcome :=
+  match html_attrs_dict attrs defaults kwargs with
+  | None => ErrType
+  | Some final => match attributes_to_string final with Some s => Out s | None => ErrValue end
+  end.
+
+(* ================================================================================================ *)
+(* 3. the tag level: resolved params -> merge_repeated_kwargs -> aggregate -> split -> bind -> render *)
+(* ================================================================================================ *)
+Inductive tval := TS (v : aval) | TD (d : dict).
+(* keyword = (key, key.isidentifier() and not keyword.iskeyword(key)) ; None = positional.
+   Keys written in the tag are plain; keys brought in by a spread (`...dict`) are the dict's key objects. *)
+Notation tkey := (option ((str * bool) * bool)) (only parsing).
+Notation tparam := (option ((str * bool) * bool) * tval)%type (only parsing).
+
+Definition key_is (k : str) (p : option ((str * bool) * bool) * tval) : bool :=
+  match fst p with Some (k', _) => str_eqb k (fst k') | None => false end.
 
 Fixpoint mem_str (k : str) (l : list str) : bool :=
   match l with [] => false | x :: r => str_eqb k x || mem_str k r end.
 
-Fixpoint later_vals (k : str) (ps : list (option (str * bool) * tval)) : list tval :=
+Fixpoint later_vals (k : str) (ps : list (option ((str * bool) * bool) * tval)) : list tval :=
   match ps with
   | [] => []
   | p :: r => if key_is k p then snd p :: later_vals k r else later_vals k r
@@ -163,20 +177,21 @@ Fixpoint all_text (l : list tval) : option (list str) :=
   | TD _ :: _ => None
   end.
 
-(* merge_repeated_kwargs: the first occurrence of a repeated keyword receives
-   str(v1) + " " + str(v2) + ... ; later occurrences disappear.  None = str() of a dict needed. *)
-Fixpoint merge_repeated (seen : list str) (ps : list (option (str * bool) * tval))
-  : option (list (option (str * bool) * tval)) :=
+(* merge_repeated_kwargs (as repaired by 30be467): the first occurrence of a repeated keyword receives
+   str(v1) + " " + str(v2) + ... (and keeps its key object); later occurrences disappear.
+   None = str() of a dict needed (out of scope). *)
+Fixpoint merge_repeated (seen : list str) (ps : list (option ((str * bool) * bool) * tval))
+  : option (list (option ((str * bool) * bool) * tval)) :=
   match ps with
   | [] => Some []
   | (None, v) :: r => option_map (cons (None, v)) (merge_repeated seen r)
   | (Some (k, idf), v) :: r =>
-      if mem_str k seen then merge_repeated seen r
-      else match later_vals k r with
-           | [] => option_map (cons (Some (k, idf), v)) (merge_repeated (k :: seen) r)
+      if mem_str (fst k) seen then merge_repeated seen r
+      else match later_vals (fst k) r with
+           | [] => option_map (cons (Some (k, idf), v)) (merge_repeated (fst k :: seen) r)
            | l => match all_text (v :: l) with
                   | Some ts => option_map (cons (Some (k, idf), TS (VStr (join_sp ts))))
-                                          (merge_repeated (k :: seen) r)
+                                          (merge_repeated (fst k :: seen) r)
                   | None => None
                   end
            end
@@ -186,7 +201,7 @@ Fixpoint merge_repeated (seen : list str) (ps : list (option (str * bool) * tval
 Fixpoint has_colon (k : str) : bool := match k with [] => false | c :: r => N.eqb c 58 || has_colon r end.
 Definition is_agg (k : str) : bool :=
   match k with [] => false | c :: _ => negb (N.eqb c 58) && has_colon k end.
-Fixpoint split_colon (k : str) : str * str :=   (* key.split(":", 1) *)
+Fixpoint split_colon (k : str) : str * str :=   (* key.split(":", 1) : both parts are plain str *)
   match k with
   | [] => ([], [])
   | c :: r => if N.eqb c 58 then ([], r) else let '(a, b) := split_colon r in (c :: a, b)
@@ -194,13 +209,15 @@ Fixpoint split_colon (k : str) : str * str :=   (* key.split(":", 1) *)
 
 Fixpoint nested_set (outer inner : str) (v : aval) (n : list (str * dict)) : list (str * dict) :=
   match n with
-  | [] => [(outer, [(inner, v)])]
-  | (o, d) :: r => if str_eqb outer o then (o, dset inner v d) :: r else (o, d) :: nested_set outer inner v r
+  | [] => [(outer, [((inner, false), v)])]
+  | (o, d) :: r => if str_eqb outer o then (o, dset (inner, false) v d) :: r else (o, d) :: nested_set outer inner v r
   end.
 
-(* the loop of process_aggregate_kwargs: (processed params, seen regular keys, nested dicts) *)
-Fixpoint agg_loop (ps : list (option (str * bool) * tval)) (nested : list (str * dict))
-  : option (list (option (str * bool) * tval) * list str * list (str * dict)) :=
+(* the loop of process_aggregate_kwargs: (processed params, seen regular keys, nested dicts).
+   (_check_kwargs_for_agg_conflict, which runs first, can never fire: it looks for a key that is both an
+   aggregate key and a regular key.) *)
+Fixpoint agg_loop (ps : list (option ((str * bool) * bool) * tval)) (nested : list (str * dict))
+  : option (list (option ((str * bool) * bool) * tval) * list str * list (str * dict)) :=
   match ps with
   | [] => Some ([], [], nested)
   | (None, v) :: r =>
@@ -209,19 +226,19 @@ Fixpoint agg_loop (ps : list (option (str * bool) * tval)) (nested : list (str *
       | None => None
       end
   | (Some (k, idf), v) :: r =>
-      if is_agg k then
+      if is_agg (fst k) then
         match v with
-        | TS av => let '(o, i) := split_colon k in agg_loop r (nested_set o i av nested)
+        | TS av => let '(o, i) := split_colon (fst k) in agg_loop r (nested_set o i av nested)
         | TD _ => None                       (* dict nested in an aggregated dict: out of scope *)
         end
       else
         match agg_loop r nested with
-        | Some (out, seen, n) => Some ((Some (k, idf), v) :: out, k :: seen, n)
+        | Some (out, seen, n) => Some ((Some (k, idf), v) :: out, fst k :: seen, n)
         | None => None
         end
   end.
 
-Inductive agg_res := AggOk (ps : list (option (str * bool) * tval)) | AggConflict | AggScope.
+Inductive agg_res := AggOk (ps : list (option ((str * bool) * bool) * tval)) | AggConflict | AggScope.
 
 (* aggregated keys: only `attrs` / `defaults` are in scope (both are identifiers); any other prefix
    produces a dict-valued extra attribute whose rendering is str(dict) - out of scope. *)
@@ -229,7 +246,7 @@ Definition k_attrs : str := [97;116;116;114;115].
 Definition k_defaults : str := [100;101;102;97;117;108;116;115].
 
 Fixpoint agg_finish (n : list (str * dict)) (seen : list str)
-  : option (option (list (option (str * bool) * tval))) :=   (* None = conflict; Some None = scope *)
+  : option (option (list (option ((str * bool) * bool) * tval))) :=   (* None = conflict; Some None = scope *)
   match n with
   | [] => Some (Some [])
   | (o, d) :: r =>
@@ -238,12 +255,12 @@ Fixpoint agg_finish (n : list (str * dict)) (seen : list str)
            | None => None
            | Some None => Some None
            | Some (Some l) =>
-               if str_eqb o k_attrs || str_eqb o k_defaults then Some (Some ((Some (o, true), TD d) :: l))
+               if str_eqb o k_attrs || str_eqb o k_defaults then Some (Some ((Some ((o, false), true), TD d) :: l))
                else Some None
            end
   end.
 
-Definition aggregate (ps : list (option (str * bool) * tval)) : agg_res :=
+Definition aggregate (ps : list (option ((str * bool) * bool) * tval)) : agg_res :=
   match agg_loop ps [] with
   | None => AggScope
   | Some (out, seen, n) =>
@@ -255,8 +272,9 @@ Definition aggregate (ps : list (option (str * bool) * tval)) : agg_res :=
   end.
 
 (* node.py wrapper_render: non-identifier keywords are taken out (and re-added LAST);
-   a positional after one of them is a SyntaxError. *)
-Fixpoint positional_after_special (ps : list (option (str * bool) * tval)) (seen_special : bool) : bool :=
+   a positional after one of them is a SyntaxError.  (Its duplicate check cannot fire here: keys are unique
+   after merge_repeated_kwargs, and aggregation only adds the identifiers attrs / defaults.) *)
+Fixpoint positional_after_special (ps : list (option ((str * bool) * bool) * tval)) (seen_special : bool) : bool :=
   match ps with
   | [] => false
   | (None, _) :: r => seen_special || positional_after_special r seen_special
@@ -264,10 +282,10 @@ Fixpoint positional_after_special (ps : list (option (str * bool) * tval)) (seen
   end.
 
 Record bound := { b_args : list tval; b_attrs : option tval; b_defaults : option tval;
-                  b_kw : list (str * tval); b_special : list (str * tval); b_seen_kw : bool }.
+                  b_kw : list ((str * bool) * tval); b_special : list ((str * bool) * tval); b_seen_kw : bool }.
 
 (* _validate_params_with_code for render(attrs=None, defaults=None, **kwargs); None = TypeError *)
-Fixpoint bind (ps : list (option (str * bool) * tval)) (b : bound) : option bound :=
+Fixpoint bind (ps : list (option ((str * bool) * bool) * tval)) (b : bound) : option bound :=
   match ps with
   | [] => Some b
   | (None, v) :: r =>
@@ -283,13 +301,13 @@ Fixpoint bind (ps : list (option (str * bool) * tval)) (b : bound) : option boun
       bind r {| b_args := b_args b; b_attrs := b_attrs b; b_defaults := b_defaults b;
                 b_kw := b_kw b; b_special := b_special b ++ [(k, v)]; b_seen_kw := b_seen_kw b |}
   | (Some (k, true), v) :: r =>
-      if str_eqb k k_attrs then
+      if str_eqb (fst k) k_attrs then
         match b_attrs b with
         | Some _ => None                                         (* multiple values *)
         | None => bind r {| b_args := b_args b; b_attrs := Some v; b_defaults := b_defaults b;
                             b_kw := b_kw b; b_special := b_special b; b_seen_kw := true |}
         end
-      else if str_eqb k k_defaults then
+      else if str_eqb (fst k) k_defaults then
         match b_defaults b with
         | Some _ => None
         | None => bind r {| b_args := b_args b; b_attrs := b_attrs b; b_defaults := Some v;
@@ -311,14 +329,14 @@ Definition as_dict (v : option tval) : option dict :=
   | Some (TS _) => None
   end.
 
-Fixpoint as_scalars (l : list (str * tval)) : option dict :=
+Fixpoint as_scalars (l : list ((str * bool) * tval)) : option dict :=
   match l with
   | [] => Some []
   | (k, TS v) :: r => match as_scalars r with Some d => Some ((k, v) :: d) | None => None end
   | (_, TD _) :: _ => None
   end.
 
-Definition html_attrs_tag_with (strict : bool) (ps : list (option (str * bool) * tval)) : outcome :=
+Definition html_attrs_tag (ps : list (option ((str * bool) * bool) * tval)) : outcome :=
   match merge_repeated [] ps with
   | None => OutOfScope
   | Some ps1 =>
@@ -331,20 +349,12 @@ Definition html_attrs_tag_with (strict : bool) (ps : list (option (str * bool) *
                | None => ErrType
                | Some b =>
                    match as_dict (b_attrs b), as_dict (b_defaults b), as_scalars (b_kw b ++ b_special b) with
-                   | Some a, Some d, Some kw =>
-                       match html_attrs_dict a d kw with
-                       | Some final =>
-                           if strict then match attributes_to_string_strict final with Some s => Out s | None => ErrValue end
-                           else Out (attributes_to_string final)
-                       | None => ErrType
-                       end
+                   | Some a, Some d, Some kw => html_attrs a d kw
                    | _, _, _ => OutOfScope
                    end
                end
       end
   end.
-
-Definition html_attrs_tag := html_attrs_tag_with false.
 
 (* ================================================================================================ *)
 (* 4. the reader: character references and the attribute tokenizer                                  *)
@@ -485,19 +495,20 @@ Fixpoint tok (s : str) (st : tstate) (acc : list (str * option str)) : pres :=
 Definition parse_attrs (s : str) : pres := tok s SBefore [].
 
 (* what the property demands the reader to find: omitted None/False, bare True, the text otherwise *)
-Definition expected_item (kv : str * aval) : option (str * option str) :=
+Definition expected_item (kv : (str * bool) * aval) : option (str * option str) :=
   let '(k, v) := kv in
   match v with
   | VNone | VFalse => None
-  | VTrue => Some (map lower_ascii k, None)
-  | _ => Some (map lower_ascii k, Some (text_of v))
+  | VTrue => Some (map lower_ascii (fst k), None)
+  | _ => Some (map lower_ascii (fst k), Some (text_of v))
   end.
 Definition expected (d : dict) : list (str * option str) := filter_some (map expected_item d).
 
 Definition not_safe (v : aval) : bool := match v with VSafe _ => false | _ => true end.
-(* guard of the round-trip theorem: every attribute that is emitted has a valid name and a non-safe value *)
-Definition roundtrip_guard (d : dict) : bool :=
-  forallb (fun kv => negb (rendered (snd kv)) || (valid_name (fst kv) && not_safe (snd kv))) d.
+(* the statement speaks about non-safe names and values: no attribute that is emitted has a SafeString key or value
+   (a SafeString is the caller's declaration that the text is HTML already; it is emitted as given) *)
+Definition plain_emitted (d : dict) : bool :=
+  forallb (fun kv => negb (rendered (snd kv)) || (negb (snd (fst kv)) && not_safe (snd kv))) d.
 
 (* ================================================================================================ *)
 (* 5. slot content handed to Component.render                                                       *)
@@ -617,10 +628,10 @@ Definition outcome_eqb (a b : outcome) : bool :=
   end.
 
 (* (resolved params of the tag, what the template render did, html.parser's reading of `<div OUT>` when compared) *)
-Definition tag_case := (list (option (str * bool) * tval) * outcome * option (list (str * option str)))%type.
-Definition check_tag_with (strict : bool) (c : tag_case) : bool :=
+Definition tag_case := (list (option ((str * bool) * bool) * tval) * outcome * option (list (str * option str)))%type.
+Definition check_tag (c : tag_case) : bool :=
   let '(ps, obs, parsed) := c in
-  let m := html_attrs_tag_with strict ps in
+  let m := html_attrs_tag ps in
   outcome_eqb m obs &&
   match parsed with
   | None => true
@@ -630,13 +641,9 @@ Definition check_tag_with (strict : bool) (c : tag_case) : bool :=
               end
   end.
 
-Definition check_tag := check_tag_with false.
-Definition check_tag_strict := check_tag_with true.
-
 (* attributes_to_string called directly on a dict; observed: Some text | None = ValueError *)
-Definition ats_case := (list (str * aval) * option str)%type.
-Definition check_ats (c : ats_case) : bool := option_eqb str_eqb (Some (attributes_to_string (fst c))) (snd c).
-Definition check_ats_strict (c : ats_case) : bool := option_eqb str_eqb (attributes_to_string_strict (fst c)) (snd c).
+Definition ats_case := (list ((str * bool) * aval) * option str)%type.
+Definition check_ats (c : ats_case) : bool := option_eqb str_eqb (attributes_to_string (fst c)) (snd c).
 
 (* reader differential: attribute text, html.parser's attribute list *)
 Definition parse_case := (str * list (str * option str))%type.
